@@ -755,6 +755,19 @@ func (r *runner) handler(method string, ctx context.Context, call interface{}, a
 		}
 	}
 	switch s.mode {
+	case "foreign":
+		// an error that is not one of this description's (forwarded from elsewhere): sent by name
+		fn := cv.MethodByName("ReplyError")
+		if !fn.IsValid() {
+			s.shape = "generated VarlinkCall has no method ReplyError"
+			return nil
+		}
+		res := fn.Call([]reflect.Value{reflect.ValueOf(ctx), reflect.ValueOf(s.errName), reflect.ValueOf(map[string]interface{}{"who": "foreign", "n": 7})})
+		if e, _ := res[0].Interface().(error); e != nil {
+			s.replyErr = append(s.replyErr, e.Error())
+		} else {
+			s.replyErr = append(s.replyErr, "")
+		}
 	case "error":
 		e := r.member("error", s.errName)
 		et := e.Type
@@ -1125,6 +1138,50 @@ func (r *runner) runMethod(m *RMember) {
 					r.rep.Outcomes["ok error "+via]++
 				})
 			}
+		}
+	}
+	// errors that are not this description's, with names close to its own (an interface whose name extends this one's,
+	// a sibling, the same member name elsewhere; an undeclared member of this interface): they arrive as the
+	// generic *varlink.Error with name and parameters as sent
+	{
+		member := "Zzother"
+		for i := range r.d.Members {
+			if r.d.Members[i].Kind == "error" {
+				member = r.d.Members[i].Name
+				break
+			}
+		}
+		for _, fname := range []string{r.d.Name + ".sub." + member, r.d.Name + "2." + member, r.d.Name + "-old." + member, "zz.other." + member, r.d.Name + ".Zzundeclared", r.d.Name + "." + member + "x"} {
+			fname := fname
+			where := "mode=foreign-error"
+			r.guard(where, func() {
+				_, conn := r.newLoop(r.pkg.NewFull(r.handler))
+				r.cur = &script{method: m.Name, mode: "foreign", errName: fname}
+				fn := mobj.MethodByName("Call")
+				args := append([]reflect.Value{reflect.ValueOf(ctx), reflect.ValueOf(conn)}, r.buildArgs(fn, 2, m.In, ins[0].(Rec))...)
+				res := fn.Call(args)
+				r.rep.Executions++
+				r.rep.Steps += 3
+				if len(r.cur.replyErr) != 1 || r.cur.replyErr[0] != "" {
+					r.fail("foreign-error-refused", where, "ReplyError(%q) in the implementation: %v (%s)", fname, r.cur.replyErr, r.cur.shape)
+					return
+				}
+				err, _ := res[len(res)-1].Interface().(error)
+				ve, ok := err.(*varlink.Error)
+				if !ok {
+					r.fail("foreign-error-type", where, "error %s, which the description does not declare, arrived as %T (%v), want *varlink.Error", fname, err, err)
+					return
+				}
+				var p map[string]interface{}
+				if raw, ok := ve.Parameters.(*json.RawMessage); ok && raw != nil {
+					json.Unmarshal(*raw, &p)
+				}
+				if ve.Name != fname || p["who"] != "foreign" || p["n"] != float64(7) {
+					r.fail("foreign-error-values", where, "error %s arrived as name %q parameters %v", fname, ve.Name, p)
+					return
+				}
+				r.rep.Outcomes["ok foreign error"]++
+			})
 		}
 	}
 	// not overridden: MethodNotImplemented
